@@ -115,7 +115,7 @@ def run(ctx):
         if rnd.random() < 0.2:
             f = rnd.choice([('not', f), ('and', f, rnd.choice(M0)), ('or', rnd.choice(inner), f)])
         cases.append({'op': 'mc', 'logic': rnd.choice(['CTL', 'CTL', 'CTLS']), 'K': K, 'F': F, 'f': f, 'family': 'nested on core+tail K'})
-        if rnd.random() < 0.2:
+        if rnd.random() < 0.35:
             cases.append({'op': 'fs', 'K': K, 'F': F, 'naming': rnd.choice(['int', 'str', 'tuple']), 'shuf': rnd.randrange(1 << 30)})
     # seeded random beyond the scope
     for _ in range(600 if q else 20000):
